@@ -848,15 +848,18 @@ func coqErrk(k string) string {
 	return "EOther"
 }
 
-func (sc scenario) coqOutcome() (ctx, outcome string) {
-	ctx = "None"
+// coqOutcome: state of the process context and of the caller's context when Run returns, and how the command ended.
+func (sc scenario) coqOutcome() (ctx, pctx, outcome string) {
+	ctx, pctx = "None", "None"
 	switch sc.Cancel {
-	case "ctx", "method":
-		return "(Some CtxCancelled)", "(Signaled 9)"
+	case "ctx":
+		return "(Some CtxCancelled)", "(Some CtxCancelled)", "(Signaled 9)"
+	case "method": // Cancel() cancels the process context only
+		return "(Some CtxCancelled)", "None", "(Signaled 9)"
 	case "deadline":
-		return "(Some CtxDeadline)", "(Signaled 9)"
+		return "(Some CtxDeadline)", "(Some CtxDeadline)", "(Signaled 9)"
 	case "pre":
-		return "(Some CtxCancelled)", "(StartCtx CtxCancelled)"
+		return "(Some CtxCancelled)", "(Some CtxCancelled)", "(StartCtx CtxCancelled)"
 	}
 	switch {
 	case sc.NotFound != "" && strings.Contains(sc.NotFound, "/"):
@@ -888,12 +891,12 @@ func (sc scenario) coqCase(o observation) string {
 		return fmt.Sprintf("CAdapter %s %s %s %s", h.Bool(sc.Stderr), h.List(chunks), h.List(pw), fl)
 	}
 	ob, eb := sc.expectedBytes()
-	ctx, outcome := sc.coqOutcome()
+	ctx, pctx, outcome := sc.coqOutcome()
 	full := append(append([]logEntry(nil), o.Log...), o.Late...) // everything the logger ever received for this run
 	if sc.Kind == "output" {
 		return fmt.Sprintf("COutput %s %s %s %s %s %s", outcome, coqBytes(ob), coqBytes(eb), sc.coqLog(full), coqBytes([]byte(o.Text)), coqErrk(o.ErrKind))
 	}
-	return fmt.Sprintf("CExec true %s %s %s %s %s %s", ctx, outcome, coqBytes(ob), coqBytes(eb), sc.coqLog(full), coqErrk(o.ErrKind))
+	return fmt.Sprintf("CExec true %s %s %s %s %s %s %s", ctx, pctx, outcome, coqBytes(ob), coqBytes(eb), sc.coqLog(full), coqErrk(o.ErrKind))
 }
 
 // ---------------------------------------------------------------------------------------------------------------------
@@ -1260,7 +1263,8 @@ func main() {
 		return
 	}
 	r := h.Init("C18")
-	r.Imports = []string{"GU.C18.Model"}
+	r.ShardSize = 110                                   // the case files are evaluated in parallel: the few large cases are spread over ~8 files
+	r.Imports = []string{"GU.C18.Model", "GU.C18.Inst"} // Inst: check_case of the model instantiated with the generated facts
 	var err error
 	selfPath, err = os.Executable()
 	if err != nil {
@@ -1319,8 +1323,10 @@ func main() {
 		}
 	}
 	// a failure of a run which depends on timing (interrupting a child) is confirmed in isolation, with longer waits
+	reruns := 0 // bounded: when the code is broken for every run, confirming a dozen of them is enough
 	for i := range scs {
-		if len(results[i].vs) > 0 && timingDependent(scs[i]) {
+		if len(results[i].vs) > 0 && timingDependent(scs[i]) && reruns < 12 {
+			reruns++
 			for attempt := 1; attempt <= 2 && len(results[i].vs) > 0; attempt++ {
 				r.Count("timing-dependent failure re-run")
 				o, vs := execute(scs[i], attempt)
